@@ -181,16 +181,23 @@ theorem jnp_round_f32_correct (x : ℚ) :
     recipe_jnp_round_f32.eval .ideal [.q x] = .q (Jax.round .toNearestEven x) := by
   simp only [recipe_jnp_round_f32]; recipe_simp; rw [roundHalfEven_eq_jax]
 
-/-- `lax.round(x)` (default AWAY_FROM_ZERO): only off the ties (partial — /repo ignores
-    `rounding_method`; see `round_away_f32_refuted`). -/
-theorem round_away_f32_correct_partial (x : ℚ) (h : x - (x.floor : ℚ) ≠ 1 / 2) :
+/-- `lax.round(x)` (default AWAY_FROM_ZERO), full strength on all of ℚ: the lowering /repo emits
+    since commit 3e0a3fd (`Sign(x) * Where(|x| - Floor|x| >= 1/2, Floor|x| + 1, Floor|x|)`) rounds
+    ties away from zero.  (Before that commit the recipe was a bare `Round` and only
+    `round_away_f32_correct_partial` held; see the regression example below.) -/
+theorem round_away_f32_correct (x : ℚ) :
     recipe_round_away_f32.eval .ideal [.q x] = .q (Jax.round .awayFromZero x) := by
-  simp only [recipe_round_away_f32]; recipe_simp; rw [roundHalfEven_eq_away_of_not_tie x h]
+  simp only [recipe_round_away_f32]; recipe_simp
+  rw [← roundAwayFix_eq, ← roundAwayFix_cast]
+  simp only [mkRat_half, mkRat_one]
+  by_cases h : (if x < 0 then -x else x) - ((ratFloor (if x < 0 then -x else x) : ℤ) : ℚ) ≥ 1 / 2
+  · simp only [h, decide_true, if_true]
+  · simp only [h, decide_false, Bool.false_eq_true, if_false]
 
-/-- The full statement is false for the recipe /repo emits today: witness `x = 1/2`. -/
-theorem round_away_f32_refuted :
-    recipe_round_away_f32.eval .ideal [.q (1 / 2)] ≠ .q (Jax.round .awayFromZero (1 / 2)) := by
-  decide +kernel
+-- regression example (about ONNX Round alone, not about /repo's current recipe): the lowering that
+-- was repaired — a bare `Round` — does not implement AWAY_FROM_ZERO at the tie 1/2.
+example : ({ inputs := [.f32], nodes := [⟨.round, .f32, .f32, [0]⟩], out := 1 } : Recipe).eval .ideal [.q (1 / 2)]
+    ≠ .q (Jax.round .awayFromZero (1 / 2)) := by decide +kernel
 
 theorem floor_f32_correct (x : ℚ) : recipe_floor_f32.eval .ideal [.q x] = .q (Jax.floor x) := by
   simp only [recipe_floor_f32]; recipe_simp; rfl
